@@ -113,3 +113,28 @@ Proof.
          (parse_inline_one_line cfg rf cf lt s H13 H0 Hc env)).
 Qed.
 Print Assumptions C18_quote_is_parse_inline.
+
+(* the list item context: the inline token inside  "- " s  has content s and exactly the children of parseInline(s) *)
+Theorem C18_item_is_parse_inline :
+  forall cfg rf cf lt s, line_ok s -> mem_z 13 s = false -> mem_z 0 s = false ->
+  forall rpre rpost, c_rules (p_block cfg) = rpre ++ nm_paragraph :: rpost ->
+    Forall (fun n => str_eqb n nm_paragraph = false) rpre ->
+  forall bpre bpost, c_rules (p_block cfg) = bpre ++ nm_list :: bpost ->
+    Forall (fun n => n = nm_table \/ n = nm_code \/ n = nm_fence \/ n = nm_blockquote \/ n = nm_hr) bpre ->
+    2 < c_maxNesting (p_block cfg) ->
+    p_core cfg = [n_normalize; n_block; n_inline; n_text_join] ->
+  forall env,
+    parse cfg rf cf lt ([45; 32] ++ s ++ [10]) env
+    = (do toks <- inline_parse (p_inline cfg) rf cf lt s env [];
+       Ok (ul_open_tok :: li_open_tok
+           :: hide_para (map deeper2 [p_open; set_children (p_inl s) (Some (join_children toks)); p_close])
+           ++ [li_close_tok; ul_close_tok], env))
+    /\ parse_inline cfg rf cf lt s env
+       = (do toks <- inline_parse (p_inline cfg) rf cf lt s env [];
+          Ok ([set_children (i_inl s) (Some (join_children toks))], env)).
+Proof.
+  exact (fun cfg rf cf lt s Hs H13 H0 rpre rpost HR Hpre bpre bpost HB Hbpre Hn Hc env =>
+    conj (proj2 (item_nests_paragraph cfg rf cf lt s Hs H13 H0 rpre rpost HR Hpre bpre bpost HB Hbpre Hn Hc env))
+         (parse_inline_one_line cfg rf cf lt s H13 H0 Hc env)).
+Qed.
+Print Assumptions C18_item_is_parse_inline.
